@@ -20,6 +20,10 @@ import (
 // backend store.
 type TrieStore struct {
 	trie *Trie
+	// root is the state root the store was created for. Seek is run by
+	// iterators in goroutines of their own while the VM goes on with Get,
+	// and Get re-links nodes of trie, so Seek uses a trie of its own.
+	root util.Uint256
 }
 
 // NewTrieStore returns a new ready to use MPT-backed storage.
@@ -31,6 +35,7 @@ func NewTrieStore(root util.Uint256, mode TrieMode, backed storage.Store) *TrieS
 	tr := NewTrie(NewHashNode(root), mode, cache)
 	return &TrieStore{
 		trie: tr,
+		root: root,
 	}
 }
 
@@ -72,7 +77,8 @@ func (m *TrieStore) Seek(rng storage.SeekRange, f func(k, v []byte) bool) {
 	if len(rng.Start) > 0 {
 		fromP = toNibbles(rng.Start)
 	}
-	_, start, path, err := m.trie.getWithPath(m.trie.root, prefixP, false)
+	tr := NewTrie(NewHashNode(m.root), m.trie.mode, m.trie.Store)
+	_, start, path, err := tr.getWithPath(tr.root, prefixP, false)
 	if err != nil {
 		// Failed to determine the start node => no matching items.
 		return
@@ -94,7 +100,7 @@ func (m *TrieStore) Seek(rng storage.SeekRange, f func(k, v []byte) bool) {
 		}
 	}
 
-	b := NewBillet(m.trie.root.Hash(), m.trie.mode, DummySTTempStoragePrefix, m.trie.Store)
+	b := NewBillet(m.root, m.trie.mode, DummySTTempStoragePrefix, m.trie.Store)
 	process := func(pathToNode []byte, node Node, _ []byte) bool {
 		if leaf, ok := node.(*LeafNode); ok {
 			// (*Billet).traverse includes `from` path into the result if so. It's OK for Seek, so shouldn't be filtered out.
